@@ -109,6 +109,12 @@ func genSpecials(r *Rng) []special {
 		return specialHeader() + "func Special(a int, b int, s string, xs []int) int {\n\tt := \"k\"\n\tif a > b {\n\t\tt = \"longer\"\n\t}\n\tu := " + e + "\n\tif len(u) > 0 && u[0] == 'k' {\n\t\treturn 1\n\t}\n\treturn len(u)\n}\n"
 	}
 	out = append(out, special{Name: "string-concat-operands-exchanged", Family: "string-commute", P: sc(false), Q: sc(true)})
+	// 2e. a slice bound moved to another position (xs[1:] vs xs[:1]; s[i:j] vs s[:i:j] are positional operands)
+	sl := func(e string) string {
+		return specialHeader() + "func Special(a int, b int, s string, xs []int) int {\n\tif len(xs) < 3 {\n\t\treturn -1\n\t}\n\tys := " + e + "\n\treturn len(ys)*100 + cap(ys)*10 + ys[0]\n}\n"
+	}
+	out = append(out, special{Name: "slice-low-bound-moved-to-high", Family: "slice-bounds", P: sl("xs[1:]"), Q: sl("xs[:1]")})
+	out = append(out, special{Name: "slice-high-bound-moved-to-max", Family: "slice-bounds", P: sl("xs[1:2]"), Q: sl("xs[:1:2]")})
 	// 3. exchanged select cases (only the first channel is ever ready: deterministic natively)
 	sel := func(first, second string) string {
 		return specialHeader() + fmt.Sprintf(`func Special(a int, b int, s string, xs []int) int {
